@@ -73,7 +73,8 @@ def stmtOK (plugArg single : Bool) (last : Option Nat) : SStmt → Bool × Optio
   | .expect n => (true, some n)
   | .delay _ => (true, last)
   | .setplugstate lit plugMp statMp =>
-    -- the assert `xm_used` needs a preceding expect; the plug comes from the literal, a capture, or the context
+    -- `$N` needs a preceding expect (before one there is no match data: the statement does nothing — it used to trip the
+    -- assert `xm_used`); the plug comes from the literal, a capture, or the context
     (last.isSome && mpOK last plugMp && mpOK last statMp && (lit || plugMp ≥ 0 || plugArg) && statMp ≥ 0, last)
   | .setresult plugMp statMp => (last.isSome && mpOK last plugMp && mpOK last statMp && plugMp ≥ 0 && statMp ≥ 0, last)
   | .foreachplug body =>
